@@ -2,7 +2,7 @@
    Only statements, each closed by `exact <lemma>`, its assumptions printed, and Examples
    showing that the hypotheses are met by non-trivial values. *)
 From Pybtex Require Import Base.Prelude Base.PyChar Base.PyStr Model.RtTypes Model.Backends
-  Proofs.Backends Proofs.BackendsMd Proofs.BackendsHtml Proofs.BackendsLatex Proofs.BackendsDepth Proofs.BackendsTotal Proofs.BackendsHtmlWf.
+  Proofs.Backends Proofs.BackendsMd Proofs.BackendsHtml Proofs.BackendsLatex Proofs.BackendsDepth Proofs.BackendsTotal Proofs.BackendsHtmlWf Proofs.BackendsMdTree.
 Local Open Scope N_scope.
 
 (* ---- plain text: the output is the text with symbols replaced by the back end's plain
@@ -33,6 +33,15 @@ Theorem md_unescape_inverse : forall enc T s, md_table_shape (t_special T) = tru
   md_unescape (t_special T) (format_str enc T BMarkdown s) = Some (xml_escape s).
 Proof. exact md_unescape_inverse_holds. Qed.
 Print Assumptions md_unescape_inverse.
+
+(* a whole tree: a Markdown reader (backslash escapes and the three XML entities decoded; inline HTML,
+   ](url) and unescaped delimiter characters treated as markup) sees exactly the characters of the
+   text, symbols as the back end's equivalents -- no character of the text acts as markup.
+   md_names_ok: tag names / URLs without angle brackets, URLs without ")". *)
+Theorem md_chardata_tree : forall enc T, md_tables_ok T = true ->
+  forall t out, md_names_ok t = true -> render enc T BMarkdown t = Ok out -> md_chardata out = Some (mplain T t).
+Proof. exact md_chardata_holds. Qed.
+Print Assumptions md_chardata_tree.
 
 (* ---- HTML: reading the output as HTML (tags stripped, entities decoded) gives exactly the
    characters of the text, symbols as their entities; in particular no character of the text
@@ -171,3 +180,13 @@ Proof. vm_compute. auto. Qed.
 Example html_not_wellformed_example : wellformed_b (lit "<em>a</b>") = false /\ wellformed_b (lit "a < b") = false /\
   wellformed_b (lit "<a href=""u"">x &amp; y</a>") = true.
 Proof. vm_compute. auto. Qed.
+Definition ex_md : tables :=
+  mkTables [(lit "ndash", lit "&ndash;"); (lit "newblock", [10]); (lit "nbsp", lit " ")]
+           [(lit "em", Some (lit "*")); (lit "strong", Some (lit "**")); (lit "tt", Some (lit "`"))] markdown_escapable.
+Example md_tree_example : md_tables_ok ex_md = true /\ md_names_ok ex_tree = true /\
+  render (enc_tab ex_enc) ex_md BMarkdown ex_tree =
+    Ok (lit "a&lt;b &amp; \{c\}~*x\_Y* <a href=""http://x.org/a_b"" target=""_blank"">z</a>") /\
+  md_chardata (lit "a&lt;b &amp; \{c\}~*x\_Y* <a href=""http://x.org/a_b"" target=""_blank"">z</a>") =
+    Some (mplain ex_md ex_tree) /\
+  md_chardata (lit "a*b") = Some [HC 97; HC 98] /\ md_chardata (lit "a\qb") = None.
+Proof. vm_compute. auto 10. Qed.
